@@ -191,6 +191,13 @@ def _run_case(case):
                 c10.apply_real(target, op, type(target))
             except Exception:
                 pass
+        # first every accessor of the side that was just changed (whatever it computes
+        # lazily is computed now, from its own pairs) ...
+        try:
+            c10.check_views(mutated, list(mutated), type(mutated))
+        except Exception:
+            pass
+        # ... then the other side, which nothing has touched
         why = c10.check_views(other, list(other), type(other))
         if why is not None:
             return (f"C11/{kind_family(kind)}/aliasing-views",
